@@ -208,7 +208,7 @@ def run_unit(unit, drv, res, seed, tier):
                 meta.append(('ok', Y(s.encode('utf-8'))))
             for v in (I(1), Y(b"x"), NULL):
                 cases.append(exec_case(len(cases), "bytes(a)", [("a", v)]))
-                meta.append(('err', 'type'))
+                meta.append(('err', '*'))
             out = drv.run(cases, 'conv')
             for c, r, exp in zip(cases, out, meta):
                 res.evaluations += 1
